@@ -1042,7 +1042,7 @@ mod mpp {
 				Ok(Err(e)) => { rec.oracle_fail(format!("[{}] the receiver could not be reloaded while holding {:?}: {}; ops: {}", self.kind, self.held, short(&e), self.history())); self.dead = true; w.bad = true; return; },
 				Err(e) => { rec.oracle_fail(format!("[{}] panic while reloading the receiver holding {:?}: {}; ops: {}", self.kind, self.held, short(&e), self.history())); self.dead = true; w.bad = true; return; },
 			}
-			w.strict.clear();
+			// (the per-channel accept_underpaying_htlcs setting is part of the persisted channel state: `w.strict` stays as it is)
 			let mut seen = observe(w, &self.hash, tpos, epos);
 			// a reloaded ChannelManager re-generates PaymentClaimed for payments claimed earlier (other hashes: documented replay, not this payment)
 			let replayed = seen.trouble.as_deref() == Some("PaymentClaimed for a foreign hash");
